@@ -490,6 +490,13 @@ pub fn exec_map<const N: usize>(cage: &mut Cage<Map<Key, Val, N>>, op: &Value, c
                 Some(()) => json!(["unit"]),
             }
         }
+        "drop" => {
+            let m = std::mem::take(&mut cage.m);
+            match call(ctx, || drop(m)) {
+                None => json!(["panic"]),
+                Some(()) => json!(["unit"]),
+            }
+        }
         "drain" => {
             let n = i(op, "n") as usize;
             let m = &mut cage.m;
@@ -1113,6 +1120,13 @@ pub fn exec_set<const N: usize>(cage: &mut Cage<Set<Key, N>>, op: &Value, ctx: &
         "s_clear" => {
             let m = &mut cage.m;
             match call(ctx, || m.clear()) {
+                None => json!(["panic"]),
+                Some(()) => json!(["unit"]),
+            }
+        }
+        "s_drop" => {
+            let m = std::mem::take(&mut cage.m);
+            match call(ctx, || drop(m)) {
                 None => json!(["panic"]),
                 Some(()) => json!(["unit"]),
             }
